@@ -52,6 +52,10 @@ EXPLANATION = (
     'Round 10: also normalised - a lookup with a computed key in a small constant table (chain of `K == k`), `s[:n] == lit` as startswith, `x = A if c else B` / '
     '`for t in (A if c else B)` / `(A if c else B).m(..)` as if/else, partial(f, a)(x) as f(a, x) (also through a local), repeated strip(); the comparison core may answer '
     'three-way (negative/zero/positive) with the dunders comparing the answer with 0. '
+    'Round 11: also read - ordering dunders generated in the class body from a template function (`__lt__ = _tmpl(operator.lt)`) or aliased, the findall() form of the token '
+    'producer, a keyword dict grown by update()/item stores and splatted (`Range(**bounds)`), range constraints compared as half-ranges. R3 also: a constant verdict of '
+    'version_compare on a path whose tests do not look at the operator; R7 also: the condition range is not recorded on a path that saw a `!=` constraint (flags by constant '
+    'propagation, flag = any(..), predicate helper). '
     'NOT decided: (a) if-clause narrowing is applied whatever the condition does with the result of version_compare (`not ..`, `.. or true`): the narrowed range is then '
     'not the set of versions that run the block - in scope of the property, but evaluate_if cannot see it and a rule would have to prescribe a design; '
     '(b) int() of a digit run longer than the interpreter limit raises ValueError (not an order property). '
@@ -303,10 +307,35 @@ def _r3_version_compare(ctx: RuleCtx, mod: T.Any) -> None:
     ctx.floor('version_compare returns', len(rets), 1)
     for ret in {norm(x): x for x in rets}.values():
         v = ret.value
-        if isinstance(v, ast.Name) and _single_def(vcn, v.id) is not None:
-            v = _single_def(vcn, v.id)
-        if isinstance(v, ast.Call) and norm(v.func) == 'bool' and len(v.args) == 1:
-            v = v.args[0]
+        for _ in range(4):
+            if isinstance(v, ast.Name) and _single_def(vcn, v.id) is not None:
+                v = _single_def(vcn, v.id)
+            elif isinstance(v, ast.Call) and norm(v.func) == 'bool' and len(v.args) == 1:
+                v = v.args[0]
+            else:
+                break
+        if isinstance(v, ast.Constant) and isinstance(v.value, bool):
+            # a verdict that does not come from the operator: if the tests that lead here do not look at the operator either, the same
+            # answer is given for `<` and for `>=` (and for `==` and `!=`), which no order allows
+            def guards(stmts: T.List[ast.stmt], acc: T.List[ast.AST]) -> T.Optional[T.List[ast.AST]]:
+                for x in stmts:
+                    if x is ret:
+                        return acc
+                    if isinstance(x, ast.If):
+                        for sub in (x.body, x.orelse):
+                            g = guards(sub, acc + [x.test])
+                            if g is not None:
+                                return g
+                    elif any(y is ret for y in ast.walk(x)):
+                        return None
+                return None
+            gs = guards(vcn.body, [])
+            opnames = {o.split('[')[0].split('.')[0] for o in ops | set(alias)}
+            if gs is None or any(names_in_text(norm(g)) & opnames for g in gs):
+                raise Undecided(f'version_compare: cannot read the result {short(ret)}')
+            ctx.violation(mod, 'version_compare', f'constant verdict {v.value}', f'`{norm(ret)}` under `{" and ".join(norm(g) for g in gs) or "no condition"}`: the verdict does not depend on the '
+                          f'operator, so for such input `<` and `>=` (and `==` and `!=`) get the same answer {v.value} - version_compare does not agree with the Version order there', ret)
+            continue
         if not (isinstance(v, ast.Call) and alias.get(norm(v.func), norm(v.func)) == op and len(v.args) == 2 and not v.keywords):
             raise Undecided(f'version_compare: cannot read the result {short(ret)}')
         inner: T.List[T.Optional[str]] = []
@@ -981,6 +1010,19 @@ def _resolve_effects(effs: T.List[str], keep: T.Iterable[str] = ()) -> T.Dict[st
     return env
 
 
+def _half_ranges(terms: T.Iterable[Term]) -> T.List[Term]:
+    """A range with both bounds is the intersection of its lower half and its upper half: every constraint is split into
+    its (min, min_eq) part, its (max, max_eq) part and the rest, so `Range(min=a, max=b)` and
+    `Range(min=a).intersect(Range(max=b))` read the same."""
+    out: T.List[Term] = []
+    for t in terms:
+        lo = tuple(kv for kv in t if kv[0] in ('min', 'min_eq'))
+        hi = tuple(kv for kv in t if kv[0] in ('max', 'max_eq'))
+        other = tuple(kv for kv in t if kv[0] not in ('min', 'min_eq', 'max', 'max_eq'))
+        out.extend(x for x in (lo, hi, other) if x)
+    return sorted(out)
+
+
 def r4_check_to_range(ctx: RuleCtx) -> None:
     mod = ctx.repo.module(UNIVERSAL)
     fn = mod.func('version_check_to_range')
@@ -1106,7 +1148,7 @@ def r4_check_to_range(ctx: RuleCtx) -> None:
                         f'row for operator {op} does not end with start = start.intersect(r)')
             if not narrowed:
                 continue
-            got = sorted(t for t in rd.terms(final.args[0], op) if t)        # type: ignore[union-attr]
+            got = _half_ranges(t for t in rd.terms(final.args[0], op) if t)        # type: ignore[union-attr]
             if op in REF_CHECK:
                 want = [_term(REF_CHECK[op], rd.fields)]
                 what = f'operator {op} builds Range({REF_CHECK[op]})'
@@ -1122,8 +1164,9 @@ def r4_check_to_range(ctx: RuleCtx) -> None:
                 if eq_bound('max'):
                     want.append(_term({'max': 'V', 'max_eq': 'False'}, rd.fields))
                 what = f'!= row ({"min" if eq_bound("min") else ""}{"max" if eq_bound("max") else ""}) removes only the extrema'
-            ctx.require(got == sorted(want), what, mod, 'version_check_to_range', node,
-                        f'operator {op}: the row `{r!r}`'[:400] + f' intersects with {[dict(t) for t in got]}; the reference is {[dict(t) for t in sorted(want)]}')
+            want = _half_ranges(want)
+            ctx.require(got == want, what, mod, 'version_check_to_range', node,
+                        f'operator {op}: the row `{r!r}`'[:400] + f' intersects with {[dict(t) for t in got]}; the reference is {[dict(t) for t in want]}')
     ctx.require(seen_ops == ALL_OPS, f'all operators have a row: {sorted(seen_ops)}', mod, 'version_check_to_range', fn,
                 f'operators with a row: {sorted(seen_ops)}; expected {sorted(ALL_OPS)}')
     # condition_with_min
